@@ -314,6 +314,9 @@ package mobius
 //@   property C08
 //@   before call (*hotline.ClientConn).NewErrReply assert !priv(cc, 2)
 //@   before call (*hotline.flattenedFileObject).TransferSize assert arg1 == 0 && arg0 == callres("hotline.NewFileWrapper", 0).Ffo
+//@   before call hotline.NewFileWrapper assert isnil(reqdata(0, 203)) ==> arg2 == 0
+//@   before call hotline.NewFileWrapper assert !isnil(reqdata(0, 203)) && old(reqdata(0, 203)[41]) >= 1 ==> arg2 == old(u32(bytes(reqdata(0, 203)), 46))
+//@   before call (*hotline.FileResumeData).UnmarshalBinary assert same(arg1, reqdata(0, 203))
 //@   before call hotline.NewField#3 assert arg0[0] == 0 && arg0[1] == 108
 //@   before call hotline.NewField#3 assert isnil(reqdata(0, 204)) ==> same(arg1, callres("(*hotline.flattenedFileObject).TransferSize"))
 //@   before call hotline.NewField#3 assert !isnil(reqdata(0, 204)) ==> len(arg1) == 4 && ptsto(arg1, hlFile.Ffo.FlatFileDataForkHeader.DataSize)
